@@ -142,3 +142,8 @@ func init() {
 	AddControl(Control{ID: "c06-forceeq-mpeg-version", Prop: "C06", Rule: "C06.forceeq", File: "format/mpeg/mp3_frame.go",
 		Old: "d.Fatalf(\"Unsupported mpeg version\")", New: "d.Errorf(\"Unsupported mpeg version\")", ExpectKey: "format/mpeg.frameDecode$1|mpegVersionNr==0"})
 }
+
+func init() {
+	AddControl(Control{ID: "c18-shared-probeorder", Prop: "C18", Rule: "C18.shared", File: "pkg/decode/decode.go",
+		Old: "	for _, f := range group.Formats {\n		var inArgs []any", New: "	for _, f := range group.Formats {\n		f.ProbeOrder++\n		var inArgs []any", ExpectKey: "pkg/decode.decode|Format.ProbeOrder#1"})
+}
